@@ -463,8 +463,18 @@ def writer_entry_fold(ctx, report):
                 px = as_pct is not None
                 if px and not rel:
                     # (an absolute layout with relativization off: what happens to it is the writer's business - WebVTT drops
-                    # it, DFXP writes it as it is; fitting it is undefined.  Only the unfitted case is judged.)
+                    # it, DFXP writes it as it is; fitting it is undefined.  Only the unfitted case is judged - but whatever
+                    # the routine does with it, it leaves the writer's own options alone.)
                     if fit:
+                        try:
+                            F.call_function(fn, [src_l], {}, self_value=me)
+                        except (FoldRaise, AnalysisError):
+                            pass
+                        if (me.attrs.get("relativize"), me.attrs.get("fit_to_screen")) != (rel, fit):
+                            bad.append({"relativize": rel, "fit_to_screen": fit, "layout": label,
+                                        "why": "the call changed the writer's own options",
+                                        "options_afterwards": {k_: me.attrs.get(k_) for k_ in ("relativize", "fit_to_screen")}})
+                            me.attrs.update({"relativize": rel, "fit_to_screen": fit})
                         continue
                     want = before
                 else:
@@ -482,6 +492,10 @@ def writer_entry_fold(ctx, report):
                     bad.append({"relativize": rel, "fit_to_screen": fit, "layout": label, "returns": got, "required": want})
                 elif value(src_l) != before:
                     bad.append({"relativize": rel, "fit_to_screen": fit, "layout": label, "why": "the layout handed in was modified"})
+                elif (me.attrs.get("relativize"), me.attrs.get("fit_to_screen"), me.attrs.get("video_width"), me.attrs.get("video_height")) \
+                        != (rel, fit, 640, 360):
+                    bad.append({"relativize": rel, "fit_to_screen": fit, "layout": label, "why": "the call changed the writer's own options"})
+                    me.attrs.update({"relativize": rel, "fit_to_screen": fit, "video_width": 640, "video_height": 360})
     report.count("writer_entry_grid_points", n)
     report.check(not bad, "R-GRID", fn, f"_relativize_and_fit_to_screen on {n} combinations of relativize / fit_to_screen / layout: lengths are "
                  "converted exactly when relativize is on (width for x, height for y), the box is cut at 90% / 95% exactly when "
